@@ -79,6 +79,35 @@ def spell(path, how, base, rng):
     raise ValueError(how)
 
 
+def wrap(seq, rng, forms):
+    """The same directory / file arguments in another container form the signature admits (a single path or any iterable)."""
+    seq = list(seq)
+    form = rng.choice(["list", "tuple", "iter", "generator", "map", "set", "dict-keys", "single"])
+    if form == "single" and len(seq) != 1:
+        form = "tuple"
+    if form == "set":
+        try:
+            hash(tuple(seq))
+        except TypeError:
+            form = "tuple"
+    forms[form] = forms.get(form, 0) + 1
+    if form == "list":
+        return seq
+    if form == "tuple":
+        return tuple(seq)
+    if form == "iter":
+        return iter(seq)
+    if form == "generator":
+        return (x for x in seq)
+    if form == "map":
+        return map(lambda x: x, seq)
+    if form == "set":
+        return set(seq)
+    if form == "dict-keys":
+        return dict.fromkeys(seq).keys()
+    return seq[0]
+
+
 def main():
     spec = json.load(open(sys.argv[1]))
     sys.path.insert(0, spec["repo"])
@@ -87,7 +116,8 @@ def main():
     assert pydsdl.__file__.startswith(spec["repo"]), pydsdl.__file__
     state = {}
     install_rglob_shuffle(state)
-    out = {"hashseed": os.environ.get("PYTHONHASHSEED"), "results": {}, "rglob_calls": 0}
+    out = {"hashseed": os.environ.get("PYTHONHASHSEED"), "results": {}, "rglob_calls": 0, "forms": {}}
+    forms = out["forms"]
     for tree in spec["trees"]:
         base = tree["base"]
         os.chdir(base)
@@ -110,7 +140,7 @@ def main():
                     if "allow_collision" in cfg:
                         kw["allow_root_namespace_name_collision"] = cfg["allow_collision"]
                     extra = [spell(x, "abs-path", base, rng) for x in cfg.get("extra_lookups", [])]
-                    res = pydsdl.read_namespace(root, lookups + extra, **kw)
+                    res = pydsdl.read_namespace(root, wrap(lookups + extra, rng, forms) if cfg["reorder"] else lookups + extra, **kw)
                     out["results"][key] = ["ok", [sig_type(pydsdl, t, base) for t in res]]
                 else:
                     files = [spell(f, "abs-path" if how in ("symlink", "dotdot", "abs-str-slash") else how, base, rng) for f in cfg["files"]]
@@ -122,6 +152,8 @@ def main():
                     roots = [root] + [spell(x, how, base, rng) for x in tree["lookups"]]
                     if cfg["reorder"]:
                         rng.shuffle(roots)
+                    if cfg["reorder"]:
+                        files, roots = wrap(files, rng, forms), wrap(roots, rng, forms)
                     d, tr = pydsdl.read_files(files, roots)
                     out["results"][key] = ["ok", [sig_type(pydsdl, t, base) for t in d], [sig_type(pydsdl, t, base) for t in tr]]
             except pydsdl.InvalidDefinitionError as ex:
